@@ -118,25 +118,73 @@ theorem writeSlotsKeep_via : ∀ slots st, PropagatesVia (fun r : Option Err × 
         intro d _ r d' hr
         cases hr; rfl
 
-/-- `write_entry`: the error of a slot write is kept while the positioned clone is dropped, then re-raised -/
-theorem writeEntry_ioSafe (d : DirStream) (name : String) (raw : DirFileEntryData) : IoSafe (writeEntry d name raw) := by
+theorem freeWrittenLoop_ioSafe : ∀ k st pos endPos, IoSafe (freeWrittenLoop k st pos endPos) := by
+  intro k
+  induction k with
+  | zero => intros; unfold freeWrittenLoop; iosafe
+  | succ k ih => intros; unfold freeWrittenLoop; iosafe [DirStream.seek_ioSafe, writeAll_ioSafe, DirStream.strm_safe]
+
+theorem freeWrittenEntries_ioSafe (st startPos) : IoSafe (freeWrittenEntries st startPos) := by
+  unfold freeWrittenEntries; iosafe [DirStream.seek_ioSafe, freeWrittenLoop_ioSafe]
+
+/-- the one outcome `write_entry` may substitute for `io k` after a fault `f` (fixes 7e7a6f2 + 68bd139:
+    `free_written_entries(..)?; return Err(err)`): the fault hit a slot write, the schedule is spent, and the roll-back
+    `free_written_entries` — run after the fault — itself ends in an error `e`, which is returned instead (same flavour as
+    `RollbackErr` of `create_dir`) -/
+def EntryRollbackX (f : Fault) (e : Err) : Prop :=
+  ∃ (st : DirStream) (pos : Nat) (d1 d2 : Dev),
+    d1.failAt = none ∧ d1.fault = some f ∧ run (freeWrittenEntries st pos) d1 = (.error e, d2)
+
+/-- the error continuation of `write_entry` is pure `?`-propagation: roll back, drop the clone, re-raise -/
+theorem entryRollback_ioSafe (st : DirStream) (startPos : Nat) (e : Err) :
+    IoSafe (thenDrop st (Prog.bind (freeWrittenEntries st startPos) (fun _ => (Prog.fail e : Prog DirEntry)))) :=
+  thenDrop_ioSafe st (IoSafe.bind _ _ (freeWrittenEntries_ioSafe st startPos) (fun _ => IoSafe.fail e))
+
+/-- in particular a fault that fires INSIDE the roll-back (entered after a slot write failed for another reason) is
+    reported: the swallowed-fault exception of the first version of the fix is gone -/
+theorem entryRollback_propagates (st : DirStream) (startPos : Nat) (e : Err) :
+    Propagates (thenDrop st (Prog.bind (freeWrittenEntries st startPos) (fun _ => (Prog.fail e : Prog DirEntry)))) :=
+  ioSafe_propagates (entryRollback_ioSafe st startPos e)
+
+theorem entryRollback_reraises (st : DirStream) (startPos j : Nat) (d : Dev) (f0 : Fault) (hfa : d.failAt = none)
+    (hf : d.fault = some f0) {r d'}
+    (hr : run (thenDrop st (Prog.bind (freeWrittenEntries st startPos)
+      (fun _ => (Prog.fail (.io j) : Prog DirEntry)))) d = (r, d')) :
+    resErr r = some (.io j) ∨ ∃ e, resErr r = some e ∧ EntryRollbackX f0 e := by
+  unfold thenDrop at hr
+  obtain ⟨rq, d1, hq, hres⟩ := resErr_finallyDrop (fun _ => DirStream.dropBody_nonFatal st) hr
+  rw [hres]
+  rcases run_bind_cases hq with ⟨b, d2, h1, h2⟩ | ⟨e', h1, he⟩
+  · simp only [run] at h2; cases h2; left; rfl
+  · subst he
+    right
+    exact ⟨e', rfl, st, startPos, d, d1, hfa, hf, h1⟩
+
+/-- `write_entry`: the error of a slot write is kept while the slots written so far are rolled back and the positioned
+    clone is dropped, then re-raised — `Propagates` up to `EntryRollbackX` -/
+theorem writeEntry_propagatesX (d : DirStream) (name : String) (raw : DirFileEntryData) :
+    PropagatesX EntryRollbackX (writeEntry d name raw) := by
   unfold writeEntry
   split
-  · exact IoSafe.fail _
-  · refine IoSafe.bind _ _ IoSafe.progGetFs (fun fs => ?_)
+  · exact (ioSafe_propagates (IoSafe.fail _)).toX
+  · refine PropagatesX.bind_ioSafe IoSafe.progGetFs (fun fs => ?_)
     dsimp only
-    refine IoSafe.bind _ _ (findFreeEntries_ioSafe _ _) (fun st0 => ?_)
-    refine IoSafe.bind _ _ ?_ ?_
+    refine PropagatesX.bind_ioSafe (findFreeEntries_ioSafe _ _) (fun st0 => ?_)
+    refine PropagatesX.bind_ioSafe ?_ ?_
     · iosafe [DirStream.seek_ioSafe, DirStream.dropBody_nonFatal]
     · rintro ⟨startPos, st⟩
       dsimp only
-      refine IoSafe.bindVia (fun r : Option Err × DirStream => r.1) _ _ (writeSlotsKeep_via _ _) ?_ ?_
-      · iosafe [thenDrop_ioSafe, DirStream.seek_ioSafe, DirStream.absPos_ioSafe]
-      · rintro ⟨err, st'⟩ j hb
+      refine PropagatesX.bindVia (f := fun r : Option Err × DirStream => r.1) (writeSlotsKeep_via _ _) ?_ ?_
+      · rintro ⟨err, st'⟩
+        dsimp only
+        split
+        · exact (entryRollback_propagates _ _ _).toX
+        · refine (ioSafe_propagates ?_).toX
+          iosafe [thenDrop_ioSafe, DirStream.seek_ioSafe, DirStream.absPos_ioSafe]
+      · rintro ⟨err, st'⟩ j hb dv f0 hfa hf r d' hr
         dsimp only at hb
         subst hb
-        dsimp only
-        exact Reraises.finallyDrop (Reraises.fail j) (fun _ => DirStream.dropBody_nonFatal _)
+        exact entryRollback_reraises _ _ _ dv f0 hfa hf hr
 
 theorem deleteSlots_ioSafe : ∀ k st, IoSafe (deleteSlots k st) := by
   intro k
@@ -165,14 +213,50 @@ theorem openFile_ioSafe (env) : ∀ fuel d path, IoSafe (openFile env fuel d pat
     intros; unfold openFile
     iosafe [findEntry_ioSafe, DirEntry.toDir_ioSafe, DirEntry.toFile_ioSafe, thenDrop_ioSafe]
 
-theorem createFile_ioSafe (env) : ∀ fuel d path, IoSafe (createFile env fuel d path) := by
+theorem thenDrop_propagatesX {α} {X : Fault → Err → Prop} (st : DirStream) {body : Prog α} (hb : PropagatesX X body) :
+    PropagatesX X (thenDrop st body) := by
+  unfold thenDrop
+  exact PropagatesX.finallyDrop hb (fun _ => DirStream.dropBody_nonFatal _)
+
+/-- descent for `PropagatesX` goals: `IoSafe` parts are closed by `iosafe`, the listed `PropagatesX` lemmas (and local
+    hypotheses) close the calls that are only `PropagatesX` -/
+syntax "px_step" ("[" Lean.Parser.Tactic.SolveByElim.arg,* "]")? : tactic
+macro_rules
+  | `(tactic| px_step) => `(tactic| px_step [])
+  | `(tactic| px_step [$ts,*]) => `(tactic| first
+    | focus (refine (ioSafe_propagates ?_).toX; iosafe [$ts,*]; done)
+    | apply_assumption (transparency := .reducible) (exfalso := false) (symm := false) only [*, $ts,*]
+    | (with_reducible_and_instances apply PropagatesX.bind_ioSafe
+       case hp => (iosafe [$ts,*]; done))
+    | (with_reducible_and_instances apply PropagatesX.bind
+       case hp => apply_assumption (transparency := .reducible) (exfalso := false) (symm := false) only [*, $ts,*])
+    | dsimp only
+    | split
+    | with_reducible intro _)
+
+syntax "px" ("[" Lean.Parser.Tactic.SolveByElim.arg,* "]")? : tactic
+macro_rules
+  | `(tactic| px) => `(tactic| repeat px_step [])
+  | `(tactic| px [$ts,*]) => `(tactic| repeat px_step [$ts,*])
+
+theorem createFile_propagatesX (env) : ∀ fuel d path, PropagatesX EntryRollbackX (createFile env fuel d path) := by
   intro fuel
   induction fuel with
-  | zero => intros; unfold createFile; iosafe
+  | zero => intros; unfold createFile; px
   | succ k ih =>
-    intros; unfold createFile
-    iosafe [findEntry_ioSafe, DirEntry.toDir_ioSafe, DirEntry.toFile_ioSafe, thenDrop_ioSafe,
-      checkForExistence_ioSafe, createSfnEntry_ioSafe, writeEntry_ioSafe]
+    intro d path; unfold createFile
+    refine PropagatesX.bind_ioSafe IoSafe.progGetFs (fun fs => ?_)
+    split
+    split
+    · refine PropagatesX.bind_ioSafe (findEntry_ioSafe _ _ _ _) (fun e => ?_)
+      refine PropagatesX.bind_ioSafe (DirEntry.toDir_ioSafe _ _) (fun sub => ?_)
+      exact thenDrop_propagatesX _ (ih _ _)
+    · refine PropagatesX.bind_ioSafe (checkForExistence_ioSafe _ _ _ _) (fun r => ?_)
+      split
+      · refine PropagatesX.bind_ioSafe (createSfnEntry_ioSafe _ _ _) (fun sfn => ?_)
+        refine PropagatesX.bind (writeEntry_propagatesX _ _ _) (fun e => ?_)
+        exact (ioSafe_propagates (DirEntry.toFile_ioSafe _ _)).toX
+      · exact (ioSafe_propagates (DirEntry.toFile_ioSafe _ _)).toX
 
 theorem isEmptyLoop_ioSafe : ∀ fuel st, IoSafe (isEmptyLoop fuel st) := by
   intro fuel
@@ -192,18 +276,31 @@ theorem remove_ioSafe (env) : ∀ fuel d path, IoSafe (remove env fuel d path) :
     iosafe [findEntry_ioSafe, DirEntry.toDir_ioSafe, thenDrop_ioSafe, isEmpty_ioSafe, freeClusterChain_ioSafe,
       deleteEntry_ioSafe]
 
-theorem renameInternal_ioSafe (env d srcName dst dstName) : IoSafe (renameInternal env d srcName dst dstName) := by
-  unfold renameInternal
-  iosafe [findEntry_ioSafe, liftE_ioSafe, checkForExistence_ioSafe, DirStream.seek_ioSafe, deleteSlots_ioSafe,
-    DirStream.dropBody_nonFatal, thenDrop_ioSafe, writeEntry_ioSafe]
-
-theorem rename_ioSafe (env) : ∀ fuel d srcPath dst dstPath, IoSafe (rename env fuel d srcPath dst dstPath) := by
+theorem ancestorWalk_ioSafe (env target) : ∀ fuel anc depth, IoSafe (ancestorWalk env target fuel anc depth) := by
   intro fuel
   induction fuel with
-  | zero => intros; unfold rename; iosafe
+  | zero => intros; unfold ancestorWalk; iosafe [thenDrop_ioSafe]
+  | succ k ih =>
+    intros; unfold ancestorWalk
+    iosafe [thenDrop_ioSafe, DirStream.drop_ioSafe, openDir_ioSafe, DirStream.dropBody_nonFatal]
+
+theorem ancestorWalkTop_ioSafe (env target dst) : IoSafe (ancestorWalkTop env target dst) := by
+  unfold ancestorWalkTop; iosafe [ancestorWalk_ioSafe]
+
+theorem renameInternal_propagatesX (env d srcName dst dstName) :
+    PropagatesX EntryRollbackX (renameInternal env d srcName dst dstName) := by
+  unfold renameInternal
+  px [findEntry_ioSafe, liftE_ioSafe, ancestorWalkTop_ioSafe, checkForExistence_ioSafe, deleteEntry_ioSafe,
+    DirEntry.toDir_ioSafe, thenDrop_ioSafe, writeChunks_ioSafe, devStrm_safe, writeEntry_propagatesX]
+
+theorem rename_propagatesX (env) : ∀ fuel d srcPath dst dstPath,
+    PropagatesX EntryRollbackX (rename env fuel d srcPath dst dstPath) := by
+  intro fuel
+  induction fuel with
+  | zero => intros; unfold rename; px
   | succ k ih =>
     intros; unfold rename
-    iosafe [findEntry_ioSafe, DirEntry.toDir_ioSafe, thenDrop_ioSafe, renameInternal_ioSafe]
+    px [findEntry_ioSafe, DirEntry.toDir_ioSafe, thenDrop_ioSafe, thenDrop_propagatesX, renameInternal_propagatesX]
 
 theorem listLoop_ioSafe : ∀ fuel st acc, IoSafe (listLoop fuel st acc) := by
   intro fuel
